@@ -22,13 +22,6 @@ MUTANTS = [
     {"name": "c06-datafirst-compares-parsed-with-raw", "props": ["C06"], "edits": [{"file": "utype/parser/base.py", "old": "                    if provided[name] != value:", "new": "                    if result.get(name, value) != value:"}]},
     {"name": "revert-3f17af4-datafirst-spurious-absence", "props": ["C10"], "edits": [{"file": "utype/parser/base.py", "old": "            if name in result or name in attempted:", "new": "            if name in result:"}]},
     {"name": "c10-handle_error-drops-absence-when-collecting", "props": ["C10"], "edits": [{"file": "utype/parser/options.py", "old": "        self.errors.append(e)\n        if force_raise or not self.options.collect_errors:", "new": "        if not (self.options.collect_errors and type(e).__name__ == 'AbsenceError' and self.errors):\n            self.errors.append(e)\n        if force_raise or not self.options.collect_errors:"}]},
-    {"name": "c11-map-exclude-bad-key-also-keeps-value-unconverted", "props": ["C11"], "edits": [{"file": "utype/parser/rule.py", "old": """                    elif options.invalid_keys == options.PRESERVE:
-                        key = _key
-                        context.collect_waring(error.formatted_message)""", "new": """                    elif options.invalid_keys == options.PRESERVE:
-                        key = _key
-                        context.collect_waring(error.formatted_message)
-                        result[key] = _val
-                        continue"""}]},
     {"name": "c11-seq-preserve-appends-converted-prefix-only", "props": ["C11"], "edits": [{"file": "utype/parser/rule.py", "old": """                    if options.invalid_items == options.PRESERVE:
                         context.collect_waring(error.formatted_message)
                         result.append(item)
